@@ -22,7 +22,9 @@ Inductive event :=
 | EInit (groups : list (nat * action))
 | EError (nonnil : bool)                     (* ErrorEvent.Err != nil *)
 | EGroup (name : nat) (a : action) (finished : bool)
-| EAct (k : akind) (id : nat) (st : astatus) (* Apply / Prune / Delete event *)
+| EAct (k : akind) (id : nat) (st : astatus) (has_err : bool)
+    (* Apply / Prune / Delete event; has_err: the event's Error field is set
+       (skipped events carry the skip reason there, failed ones the failure) *)
 | EWait (id : nat) (st : wstatus)
 | EStatus (id : nat) (st : kstatus)
 | EValidation (ids : list nat).
@@ -62,13 +64,13 @@ Definition quad_sum (q : quad) : nat := q_succ q + q_skip q + q_fail q + q_timeo
 (* Stats.Handle; None = panic *)
 Definition handle (s : stats) (e : event) : option stats :=
   match e with
-  | EAct KApply _ st =>
+  | EAct KApply _ st _ =>     (* by Status only; the Error field is not looked at *)
       match tri_inc (s_apply s) st with
       | Some t => Some (mkStats t (s_prune s) (s_delete s) (s_wait s)) | None => None end
-  | EAct KPrune _ st =>
+  | EAct KPrune _ st _ =>
       match tri_inc (s_prune s) st with
       | Some t => Some (mkStats (s_apply s) t (s_delete s) (s_wait s)) | None => None end
-  | EAct KDelete _ st =>
+  | EAct KDelete _ st _ =>
       match tri_inc (s_delete s) st with
       | Some t => Some (mkStats (s_apply s) (s_prune s) t (s_wait s)) | None => None end
   | EWait _ st => Some (mkStats (s_apply s) (s_prune s) (s_delete s) (quad_inc (s_wait s) st))
